@@ -17,6 +17,12 @@ import (
 const (
 	peersPath    = "spynode/peers"
 	peersVersion = 2
+
+	// minPeerSize is the smallest serialized peer (address size and score).
+	minPeerSize = 8
+
+	// maxPeerAddressSize is the largest address (host:port) that is accepted when reading peers.
+	maxPeerAddressSize = 1024
 )
 
 // Peer address database. Used to find Tx Peers.
@@ -76,7 +82,14 @@ func (repo *PeerRepository) Load(ctx context.Context) error {
 		return errors.Wrap(err, "Failed to read peers count")
 	}
 
-	// Reset
+	if count < 0 {
+		return errors.New("Invalid peers count")
+	}
+
+	// Reset. The count is only a hint, so don't allocate for more peers than the data can hold.
+	if int(count) > buffer.Len()/minPeerSize {
+		count = int32(buffer.Len() / minPeerSize)
+	}
 	repo.list = make([]*Peer, 0, count)
 
 	// Parse peers
@@ -236,6 +249,10 @@ func readPeer(input io.Reader, version int32) (Peer, error) {
 	var addressSize int32
 	if err := binary.Read(input, binary.LittleEndian, &addressSize); err != nil {
 		return result, err
+	}
+
+	if addressSize < 0 || addressSize > maxPeerAddressSize {
+		return result, errors.New("Invalid peer address size")
 	}
 
 	addressData := make([]byte, addressSize)
